@@ -543,6 +543,47 @@ fn main() {
     family_space(&ctx, "f64", Dom { from: Box::new(|k| k as f64), pts: vec![-2.0, -1.0, 0.0, 0.5, 1.0, 2.0] });
     family_space(&ctx, "Complex<f64>", Dom { from: Box::new(|k| Cmplx::new(k as f64, 0.0)), pts: vec![Cmplx::new(-2., 0.), Cmplx::new(0., 1.), Cmplx::new(0., 0.), Cmplx::new(0.5, -1.), Cmplx::new(1., 1.), Cmplx::new(2., 0.)] });
     {
+        // equal-length operands (6..9 coefficients) whose halves differ widely in magnitude: {0, 1, -1, 2^53} times a monomial c x^k stored
+        // at the same length. The product is a shifted copy (exact); a divide-and-conquer product that forms (a_lo + a_hi)(b_lo + b_hi)
+        // rounds 2^53 + 1
+        let bl = [0.0f64, 1.0, -1.0, 2f64.powi(53)];
+        for len in [6usize, 7, 8, 9] {
+            let nvec = pow(4, len as u32);
+            let monos = (len * 2) as u64;
+            if ctx.quick() && len > 7 {
+                continue;
+            }
+            ctx.lattice(
+                &format!("f64 products of equal length {}: all coefficient vectors over {{0,1,-1,2^53}} times the monomials c x^k (c in {{1,-2}}, k < {}) stored at the same length", len, len),
+                nvec * monos,
+                |idx| format!("vector#{} monomial#{}", idx / monos, idx % monos),
+                |idx, acc| {
+                    let mut d = vec![0usize; len];
+                    digits_uniform(idx / monos, 4, &mut d);
+                    let a: Vec<f64> = d.iter().map(|&k| bl[k]).collect();
+                    let k = ((idx % monos) / 2) as usize;
+                    let c = if idx % 2 == 0 { 1.0 } else { -2.0 };
+                    let mut b = vec![0.0f64; len];
+                    b[k] = c;
+                    acc.nontriv("equal-length product with entries 2^53 apart");
+                    judge(acc, idx, || format!("a={:?} b={:?}", a, b), || {
+                        let (pa, pb) = (Polynomial::new(a.clone()), Polynomial::new(b.clone()));
+                        for (which, prod) in [("&a * &b", &pa * &pb), ("&b * &a", &pb * &pa), ("a * b", pa.clone() * pb.clone())] {
+                            let got = coeffs_of(&prod);
+                            for i in 0..(2 * len - 1) {
+                                let want = if i >= k && i - k < len { a[i - k] * c } else { 0.0 };
+                                let g = if i < got.len() { got[i] } else { 0.0 };
+                                ensure!(g == want, "{}: coefficient of x^{} is {:e} but the convolution gives {:e}", which, i, g, want);
+                            }
+                            ensure!(got.len() <= 2 * len - 1, "{}: {} coefficients", which, got.len());
+                        }
+                        Ok(())
+                    });
+                },
+            );
+        }
+    }
+    {
         let el = [-1.0f64, 0.0, 1.0, 2.0, 3.0];
         let maxlen = ctx.pick(5, 7);
         let total: u64 = (1..=maxlen as u32).map(|k| 5u64.pow(k)).sum();
